@@ -154,6 +154,10 @@ def handle (op : String) (args : List Sexp) : R Sexp := do
         Spec.c05CertClauses inp tbs ++ Spec.c09CertClauses inp tbs ++
         Spec.c01Clauses i.key.alg der (fun t => (Spec.decodeTbsCert t).map (·.sigAlg)) ++
         Spec.clause "C04:canonical-der" (Spec.certCanonical der) ++
+        -- DER is the encoding of a value of the *type*: every field and every extension value rcgen
+        -- writes under an identifier RFC 5280 defines has that definition's shape (tags, primitive
+        -- or constructed form of implicitly tagged fields, …), i.e. the typed reader reads it
+        Spec.clause "C04:follows-the-asn1-schema" (Spec.decodeTbsCert tbs).isSome ++
         Spec.clause "C02:custom-extensions-present" (p.customExts.all (fun e =>
           match Spec.rawCertExts tbs with
           | some xs => xs.contains (e.oid, e.critical, e.content)
@@ -198,6 +202,11 @@ def handle (op : String) (args : List Sexp) : R Sexp := do
         dropIf callerAsksForExtensions ["C05:csr-at-most-one-extension-request"] (Spec.c05CsrClauses info) ++
         Spec.c01Clauses k.alg der (fun _ => none) ++
         Spec.clause "C04:canonical-der" (Spec.csrCanonical der) ++
+        Spec.clause "C04:follows-the-asn1-schema"
+          (match Spec.decodeCsrInfo info with
+           | some c => c.attrs.all (fun d => d.oid != Spec.oidExtensionRequest || callerAsksForExtensions ||
+               (Spec.decodeExtensionRequestAll d.values).isSome)
+           | none => false) ++
         -- caller-supplied attribute values embedded byte for byte (as many times as supplied)
         Spec.clause "C04:attribute-values-verbatim"
           (match Spec.decodeCsrInfo info with
@@ -242,7 +251,20 @@ def handle (op : String) (args : List Sexp) : R Sexp := do
       pure (failList (
         Spec.c08Clauses inp tbs ++ Spec.c05CrlClauses inp tbs ++ Spec.c09CrlClauses inp tbs ++
         Spec.c01Clauses i.key.alg der (fun t => (Spec.decodeTbsCrl t).map (·.sigAlg)) ++
-        Spec.clause "C04:canonical-der" (Spec.crlCanonical der)))
+        Spec.clause "C04:canonical-der" (Spec.crlCanonical der) ++
+        Spec.clause "C04:follows-the-asn1-schema" (Spec.decodeTbsCrl tbs).isSome ++
+        -- the sixth time field of a revocation list: an entry's invalidity date decodes to the
+        -- instant given (its form, GeneralizedTime, is C08's clause)
+        Spec.clause "C09:invalidity-date"
+          (match Spec.decodeTbsCrl tbs with
+           | some c => (p.revoked.zip (c.revoked.getD [])).all (fun (r, e) =>
+               match r.invalidityDate with
+               | none => true
+               | some d => (e.exts.filter (fun x => x.oid == Spec.oidInvalidityDate)).all (fun x =>
+                   match x.value with
+                   | .invalidityDate _ t => t == d.epochSeconds
+                   | _ => false))
+           | none => false)))
   | "spec-spki", [k, der] => do
     let k ← decKey k
     let der ← der.asBytes
